@@ -542,14 +542,15 @@ impl EmitScope {
             return target.to_owned();
         }
 
-        if let Some(choice_target) = self.resolve_qualified_choice_label(target, context) {
-            return choice_target;
-        }
-
         if target.contains('.') {
-            return target.to_owned();
+            return self
+                .resolve_qualified_choice_label(target, context)
+                .unwrap_or_else(|| target.to_owned());
         }
 
+        // A bare name is resolved from the innermost scope outwards: the labels of the
+        // weave it is written in, the stitches of its own knot, and only then the labels
+        // of the top-level weave (which the table of all labels keeps under their bare names).
         if let Some(choice_target) = self.resolve_choice_label(target) {
             return choice_target.to_owned();
         }
@@ -565,6 +566,10 @@ impl EmitScope {
         // Sibling stitch: target is a stitch of the same parent knot
         if self.sibling_flow_names.contains(target) && self.top_flow_name.is_some() {
             return format!("{}.{target}", self.top_flow_name.as_deref().unwrap());
+        }
+
+        if let Some(root_label) = context.qualified_choice_labels.get(target) {
+            return root_label.clone();
         }
 
         if let Some(abs) = context.unqualified_flow_targets.get(target) {
